@@ -2,6 +2,7 @@
 boundary (injections, delivery commands, reports) plus the filesystem events of the daemons.
 Keyed by (message number, generation) because inode numbers are reused within one history."""
 import os
+from . import core
 import re
 
 from . import qsim, shim
@@ -187,7 +188,22 @@ class Ledger(qsim.Oracle):
             cmd = ev["cmd"]
             m = self.msg(cmd.num)
             if m is None or m.gone:
+                m0 = m
                 m = self.discover(cmd.num, sim)
+                if m is None and m0 is not None and m0.gone and not self.crashed and cmd.recip in (m0.recips or []):
+                    # nobody queued a new message under this number, yet the daemon hands out a recipient of the message that
+                    # had left the queue (all of its recipients were finished then): the same message is being delivered again
+                    mp = sim.qpath("mess", str(cmd.num % qsim.SPLIT), str(cmd.num))
+                    body = b""
+                    if os.path.exists(mp):
+                        content = qsim.read_noatime(mp)
+                        body = content.split(b"\n", 1)[1] if b"\n" in content else b""
+                    if body == m0.body:
+                        self.res.violate("C04/finished-recipient-attempted-again/message-had-left-the-queue",
+                                         "command for %r of message %d, which had been completed and removed earlier in this run" % (cmd.recip, cmd.num),
+                                         {"message": cmd.num, "recipient": core.hx(cmd.recip), "events": [
+                                             {k: (core.hx(v) if isinstance(v, bytes) else repr(v)[:120]) for k, v in e.items() if k not in ("data", "old", "msg", "envelope")}
+                                             for e in sim.events[-40:]]})
             if m is None:
                 return
             cmd.gen = m.gen
